@@ -60,7 +60,7 @@ def main() -> int:
                 shutil.copy(seed / f, d / f)
             meta = json.loads((d / "meta.json").read_text())
             meta["property"] = pid
-            meta["wave"] = 2
+            meta["wave"] = int(sys.argv[4]) if len(sys.argv) > 4 else 2
             (d / "meta.json").write_text(json.dumps(meta, indent=1))
             (d / "collect.json").write_text(json.dumps(rep, indent=1))
             idx += 1
